@@ -10,3 +10,8 @@ import XPathV.Theorems.C10
 #print axioms XPathV.Theorems.C10.tier_loop_left_nested
 #print axioms XPathV.Theorems.C10.parse_tree_stratified
 #print axioms XPathV.Theorems.C10.operands_never_looser
+#print axioms XPathV.Theorems.C10.C10_main
+#print axioms XPathV.Theorems.C10.C10_whole_text
+#print axioms XPathV.Theorems.C10.C10_grammar_unambiguous
+#print axioms XPathV.Theorems.C10.C10_every_tier
+#print axioms XPathV.Theorems.C10.C10_operator_token_unique
